@@ -121,9 +121,7 @@ func RunC07(tier string) int {
 					map[string]any{"case": r})
 			}
 		}
-		if r.ID < 2 {
-			run.Sample(r)
-		}
+		run.Sample(r)
 	})
 	if err != nil {
 		run.Infra(err.Error())
@@ -213,9 +211,7 @@ func RunC07(tier string) int {
 		default:
 			run.Inconclusive("porcupine timed out")
 		}
-		if res.ID == 0 && len(res.History) > 6 {
-			run.Sample(map[string]any{"atomic_history_excerpt": res.History[:6]})
-		}
+		run.Sample(map[string]any{"atomic_history_excerpt": res.History[:6]})
 	})
 	if err != nil {
 		run.Infra(err.Error())
